@@ -1069,7 +1069,6 @@ theorem weight_telescope_subsets (qs : List Group) (q : Group) (hq : q ∈ qs) (
     (hd : ∀ q ∈ qs, IsDerived q.G q.X q.y)
     (hwfX : ∀ x ∈ totalInputs qs, x.WF = true) (hwfY : ∀ q ∈ qs, q.y.WF = true)
     (hS : SameCfgs (totalInputs qs))
-    (hbar : ∀ x ∈ totalInputs qs, ∀ m ∈ x.names, ((Py.ensOf m ++ "|").isPrefixOf m || m == Py.ensOf m) = true)
     (hne : ∀ x ∈ totalInputs qs, ∀ m, (x.rep? m).isSome = true → Spec.cfgs x m ≠ [])
     (hinT : ∀ x ∈ totalInputs qs, ∀ m ∈ x.names, m ∈ newSampleNames (totalInputs qs))
     (hinY : ∀ q ∈ qs, ∀ m ∈ q.y.names, m ∈ newSampleNames (qs.map (·.y)))
@@ -1093,7 +1092,7 @@ theorem weight_telescope_subsets (qs : List Group) (q : Group) (hq : q ∈ qs) (
     exact_mod_cast this.ne'
   -- the ensemble and the three sets of chains
   set e := Py.ensOf n with he
-  have hpre : ((e ++ "|").isPrefixOf n || n == e) = true := hbar x hxT n hnx
+  have hpre : ((e ++ "|").isPrefixOf n || n == e) = true := ensOf_prefix_or_eq n
   have hex : e ∈ x.mcNames := (mem_mcNames x e).mpr ⟨n, hnx, rfl⟩
   have hny : n ∈ q.y.names := (rep_isSome_iff q.y n).mp (((hd q hq).hasChain n).mpr hnQ)
   have hey : e ∈ q.y.mcNames := (mem_mcNames q.y e).mpr ⟨n, hny, rfl⟩
@@ -1168,9 +1167,7 @@ theorem weight_telescope_subsets (qs : List Group) (q : Group) (hq : q ∈ qs) (
 
 /-- **C01 (independence of the splitting into intermediate steps), for inputs that lack whole replicas.**  If every
     input has each of its chains on the full configuration list of that chain (`SameCfgs`; inputs may lack whole
-    replicas of an ensemble, so missing-replica factors do occur) and every chain name is its ensemble's name or starts with `ensemble|`
-    (`hbar`: true of every string, stated as a decidable hypothesis instead of a lemma about `String.isPrefixOf`;
-    a chain called exactly like its ensemble counts as a replica since the repair of the missing-replica factor), the
+    replicas of an ensemble, so missing-replica factors do occur), the
     two-level evaluation and the one-shot evaluation with the chain-rule gradient carry the same fluctuation on
     every chain and configuration: the union factors are 1 and the missing-replica factors of the two levels
     multiply to the one-shot factor (`weight_telescope_subsets`). -/
@@ -1182,8 +1179,7 @@ theorem c01_compose_subsets (qs : List Group) (fs : Group → List ℝ → ℝ) 
     (hz : derivedObs f2 (qs.map (·.a)) (qs.map (·.y)) covEq = .ok z)
     (hz1 : derivedObs F (totalGrad qs) (totalInputs qs) covEq = .ok z1)
     (hne : ∀ q ∈ qs, ∀ x ∈ q.X, ∀ n, (x.rep? n).isSome = true → Spec.cfgs x n ≠ [])
-    (hS : SameCfgs (totalInputs qs))
-    (hbar : ∀ x ∈ totalInputs qs, ∀ m ∈ x.names, ((Py.ensOf m ++ "|").isPrefixOf m || m == Py.ensOf m) = true) :
+    (hS : SameCfgs (totalInputs qs)) :
     ∀ n, n ∈ newSampleNames (qs.map (·.y)) → n ∈ newSampleNames (totalInputs qs) →
       ∀ c ∈ Spec.unionCfgs (totalInputs qs) n, z.delta? n c = z1.delta? n c := by
   intro n hn1 hn2 c hc
@@ -1212,7 +1208,7 @@ theorem c01_compose_subsets (qs : List Group) (fs : Group → List ℝ → ℝ) 
   congr 1
   apply compose_delta qs n c hd
   · intro q hq x hx hxn
-    exact weight_telescope_subsets qs q hq x hx n hd hwfX hywf hS hbar hneT hinT hinY hxn
+    exact weight_telescope_subsets qs q hq x hx n hd hwfX hywf hS hneT hinT hinY hxn
   · intro q hq x hx c' hc'
     exact delta_none_of_not_mem x n c' hc'
 
